@@ -16,6 +16,7 @@ import (
 	"time"
 
 	"verif/harness/core"
+	"verif/harness/env"
 	"verif/harness/props"
 )
 
@@ -73,6 +74,16 @@ func child(p *props.Prop, tier string, seed int64, workdir, rwl string, rix int)
 	j := core.NewJournal(workdir)
 	ctx := &props.Ctx{Run: r, WorkDir: workdir, Tier: tier, Seed: seed, Thorough: tier == "thorough"}
 	wls := p.Build(ctx)
+	if p.DeathIsViolation {
+		// a handler that never returns: the goroutine cannot be stopped, so the run ends here with what it has
+		env.WatchStuck(func(tag, desc string, since time.Duration) {
+			r.Violate(core.Violation{Clause: "request_never_answered", Class: "hang", Reason: fmt.Sprintf("the handler has not returned %s after it was called (%s)", since.Round(time.Second), desc), Workload: "watch", Index: 0, Case: map[string]any{"tag": tag, "request": desc, "in_flight_cases": j.InFlight()}})
+			if p.Race {
+				props.CollectRaceReports(ctx)
+			}
+			os.Exit(r.Finish())
+		})
+	}
 	r.Execute(j, wls)
 	if p.After != nil {
 		p.After(ctx)
@@ -181,10 +192,19 @@ func parent(p *props.Prop, tier string, seed int64, replay string) int {
 	_ = os.WriteFile(rp, b, 0o644)
 	verdict, exit := "inconclusive", core.ExitInconclusive
 	fatal := strings.Contains(tail, "fatal error:") || strings.Contains(tail, "panic:") || strings.Contains(tail, "SIGSEGV")
-	if p.DeathIsViolation && (fatal || timedOut) {
+	// race reports written before the child died
+	races := 0
+	if p.Race {
+		for _, k := range props.RaceReportKeys(workdir) {
+			races++
+			verdict, exit = "violated", core.ExitViolation
+			fmt.Printf("VIOLATION property=%s replay=%s clause=race_detector class=data_race reason=DATA RACE %s (reported before the child process ended abnormally)\n", p.ID, rp, k)
+		}
+	}
+	if p.DeathIsViolation && fatal && !timedOut {
 		verdict, exit = "violated", core.ExitViolation
 		fmt.Printf("VIOLATION property=%s replay=%s clause=process_death class=%s reason=%s\n", p.ID, rp, strings.Join(inflight, ";"), firstFatal(tail, timedOut))
-	} else {
+	} else if races == 0 {
 		fmt.Printf("INCONCLUSIVE property=%s child process ended abnormally (exit=%d timed_out=%v in_flight=%v) see %s\n", p.ID, code, timedOut, inflight, rp)
 	}
 	ev := map[string]any{
